@@ -21,7 +21,7 @@ func init() {
 
 func c02() []*Ob {
 	return []*Ob{
-		{Prop: "C02", ID: "C02.1", Engine: "ENUM", Floor: 2,
+		{Prop: "C02", ID: "C02.1", Engine: "ENUM", Floor: 1,
 			Desc: "operator and token coverage: processor.buildEvalTree handles every concrete type the parser stores into ASTNode.Value and every logical operator constant",
 			Check: func(c *Ctx) {
 				fn := c.Fn("frac/processor.buildEvalTree")
@@ -250,7 +250,7 @@ func c02() []*Ob {
 					}
 				}
 			}},
-		{Prop: "C02", ID: "C02.6", Engine: "PROV+SHAPE", Floor: 3,
+		{Prop: "C02", ID: "C02.6", Engine: "PROV+SHAPE", Floor: 1,
 			Desc:  "wildcard matching used by every search leaf: middle fragments are searched strictly between prefix and suffix and the KMP fallback is iterated (shared with C13.5; a break returns documents that do not match, or under NOT hides documents that do)",
 			Check: func(c *Ctx) { matcherShape(c) }},
 		{Prop: "C02", ID: "C02.7", Engine: "PAIR(comparator)", Floor: 1,
@@ -360,7 +360,7 @@ func c02() []*Ob {
 				}
 				c.Site(fn.Pos(), "the right-border search includes the left border")
 			}},
-		{Prop: "C02", ID: "C02.5", Engine: "DOM", Floor: 2,
+		{Prop: "C02", ID: "C02.5", Engine: "DOM", Floor: 1,
 			Desc: "no repeated LID in a posting list: in frac.mergeSorted every element taken from the freshly queued list (which repeats a LID when a document carries the token twice) is appended only after the comparison with the previously appended value",
 			Check: func(c *Ctx) {
 				fn := c.Fn("frac.mergeSorted")
